@@ -52,3 +52,5 @@ def run(ctx):
     # every class must compile the pattern of its own structure(): what the accepted language rests on
     from ..rules_ast import persistent_state_rule
     ctx.guard(persistent_state_rule, ctx, "C17.own-pattern")
+    from ..rules_misc import error_carriers_rule
+    ctx.guard(error_carriers_rule, ctx, "C17.error-carriers")
